@@ -13,12 +13,13 @@
 #include "h_exprs.h"
 using namespace ccl;
 using namespace ccl::rslang;
-static const char* const NAMES[] = {"X1", "X2", "C1", "S1", "S2", "S3", "A1", "D1", "D2", "F1", "P1", "T1", "X9", "D9", "S9"};
+static const char* const NAMES[] = {"X1", "X2", "C1", "S1", "S2", "S3", "A1", "D1", "D2", "F1", "F2", "P1", "T1", "X9", "D9", "S9"};
 
 extern "C" void harness_main() {
   semantic::RSForm schema;
   hv::BuildContext(schema);
   schema.Emplace(semantic::CstType::structured, "X1\xC3\x97\xE2\x84\xAC(X1)");   // S3
+  schema.Emplace(semantic::CstType::function, "[\xCE\xB1\xE2\x88\x88\xE2\x84\xAC(R1)] \xCE\xB1\\\xCE\xB1");   // F2: the result type mentions a radical bound by its only argument
   std::vector<std::string> names(NAMES, NAMES + sizeof(NAMES) / sizeof(NAMES[0]));
   const ref::TypeEnv env = ref::MakeEnv(schema.RSLang(), names);
 
